@@ -1,6 +1,8 @@
 import Holpy.Common.Sexp
 import Holpy.C07.Model
 import Holpy.C07.Text
+import Holpy.C07.TypeText
+import Holpy.C07.SeqText
 import Holpy.C07.Gen
 /-
 Line protocol of the C07 model (one s-expression in, one out); strings are percent-encoded atoms
@@ -104,6 +106,15 @@ partial def tysTo : TyList → List Sexp
   | .cons t ts => tyTo t :: tysTo ts
 end
 
+partial def pairOf : Sexp → Option InstPair
+  | .list [.atom "ty", .atom a, t] => do some (.ty (toCodes (dec a)) (← tyOf t))
+  | .list [.atom "tm", .atom x, t] => do some (.tm (toCodes (dec x)) (← skelOf t))
+  | _ => none
+
+def pairTo : InstPair → Sexp
+  | .ty a t => .list [.atom "ty", .atom (enc (ofCodes a)), tyTo t]
+  | .tm x t => .list [.atom "tm", .atom (enc (ofCodes x)), skelTo t]
+
 def namesOKb (S : List (List Nat)) : Skel → Bool
   | .atom s => NameOK S s
   | .app f a => namesOKb S f && namesOKb S a
@@ -111,6 +122,58 @@ def namesOKb (S : List (List Nat)) : Skel → Bool
   | .un _ a => namesOKb S a
   | .binder _ x body => NameOK S x && idShaped x && namesOKb S body
   | .ite c a b => namesOKb S c && namesOKb S a && namesOKb S b
+
+/-! matching a real line-broken text against `printTextW`: is it `printTextW sepB sepF [] t` for SOME
+separators with `SepOK`?  (After a separator the text never begins with whitespace, so the separator
+is the maximal whitespace run.) -/
+def eatPrefix (p cs : List Nat) : Option (List Nat) := if p.isPrefixOf cs then some (cs.drop p.length) else none
+def eatSepB : List Nat → Option (List Nat)
+  | 32 :: r => some (r.dropWhile isWs)
+  | _ => none
+def eatSepF : List Nat → Option (List Nat)
+  | c :: r => if isWs c then some (r.dropWhile isWs) else none
+  | [] => none
+
+mutual
+partial def matchW (uni : Bool) : Skel → List Nat → Option (List Nat)
+  | .atom s, cs => eatPrefix s cs
+  | .app f a, cs => do
+    let r ← matchWrap uni (brF Gen.table f.cls) f cs
+    let r ← eatSepB r
+    matchWrap uni (brA Gen.table a.cls) a r
+  | .bin o l r, cs => do
+    let x ← matchWrap uni (brL Gen.table o l.cls) l cs
+    let x ← eatSepB x
+    let x ← eatPrefix (Gen.table.spellTxt uni o) x
+    let x ← eatSepB x
+    matchWrap uni (brR Gen.table o r.cls) r x
+  | .un o a, cs => do
+    let x ← eatPrefix (Gen.table.spellTxt uni o) cs
+    matchWrap uni (brU Gen.table o a.cls) a x
+  | .binder b x body, cs => do
+    let r ← eatPrefix (binderTxt Gen.table Gen.ladder uni b) cs
+    let r ← eatPrefix x r
+    let r ← eatPrefix [46, 32] r
+    matchW uni body r
+  | .ite c a b, cs => do
+    let r ← eatPrefix kwIf cs
+    let r ← eatSepB r
+    let r ← matchW uni c r
+    let r ← eatSepB r
+    let r ← eatPrefix kwThen r
+    let r ← eatSepB r
+    let r ← matchW uni a r
+    let r ← eatSepF r
+    let r ← eatPrefix kwElse r
+    let r ← eatSepB r
+    matchW uni b r
+partial def matchWrap (uni : Bool) (b : Bool) (t : Skel) (cs : List Nat) : Option (List Nat) :=
+  if b then do
+    let r ← eatPrefix [40] cs
+    let r ← matchW uni t r
+    eatPrefix [41] r
+  else matchW uni t cs
+end
 
 def handle (line : String) : String :=
   match Sexp.parse line with
@@ -133,6 +196,10 @@ def handle (line : String) : String :=
     match u.toBool?, skelOf t with
     | some uni, some sk => enc (ofCodes (printText Gen.table Gen.ladder uni sk))
     | _, _ => "bad-op"
+  | some (.list [.atom "matchbroken", u, t, .atom s]) =>
+    match u.toBool?, skelOf t with
+    | some uni, some sk => toString (Sexp.ofBool (matchW uni sk (toCodes (dec s)) == some []))
+    | _, _ => "bad-op"
   | some (.list [.atom "namesok", t]) =>
     match skelOf t with
     | some sk => toString (Sexp.ofBool (namesOKb Gen.symbolsC sk))
@@ -141,6 +208,31 @@ def handle (line : String) : String :=
     match u.toBool?, tyOf t with
     | some uni, some ty => toString (Sexp.list ((printTy Gen.tySyms uni ty).map tokTo))
     | _, _ => "bad-op"
+  | some (.list [.atom "printtytext", u, t]) =>
+    match u.toBool?, tyOf t with
+    | some uni, some ty => enc (ofCodes (printTyText Gen.tySyms Gen.symbolsC uni ty))
+    | _, _ => "bad-op"
+  | some (.list [.atom "tynamesok", t]) =>
+    match tyOf t with
+    | some ty => toString (Sexp.ofBool (ty.namesOKb Gen.symbolsC))
+    | none => "bad-op"
+  | some (.list [.atom "printthmtext", u, .list hs, c]) =>
+    match u.toBool?, hs.mapM skelOf, skelOf c with
+    | some uni, some hyps, some concl =>
+      enc (ofCodes (printThmText Gen.table Gen.ladder Gen.symbolsC Gen.seqSyms uni hyps concl))
+    | _, _, _ => "bad-op"
+  | some (.list [.atom "printinst", u, .list ps]) =>
+    match u.toBool?, ps.mapM pairOf with
+    | some uni, some pairs =>
+      toString (Sexp.list ((printInst Gen.table Gen.ladder Gen.tySyms Gen.instSyms uni pairs).map tokTo))
+    | _, _ => "bad-op"
+  | some (.list [.atom "parseinsttext", .atom s]) =>
+    match lex Gen.symbolsC (toCodes (dec s)) with
+    | some toks =>
+      match parseInst Gen.table Gen.ladder Gen.tySyms Gen.instSyms toks with
+      | some pairs => toString (Sexp.list (pairs.map pairTo))
+      | none => "none"
+    | none => "none"
   | some (.list [.atom "parsetytext", .atom s]) =>
     match lex Gen.symbolsC (toCodes (dec s)) with
     | some toks =>
